@@ -299,17 +299,15 @@ def fit_cases(rng, thorough):
 
 
 def corpus_cases():
-    # DESIGN section 4 #3, #4: shape fixed before an MLE fit; small |f_mu| of the log-normal
-    yield {"kind": "fit", "family": "GeneralizedGammaDistribution", "fixed": [0], "farg": [2.0, 1.0, 1.0],
-           "theta": [2.0, 1.3, 0.8], "data": "own", "n": 300, "data_seed": 1}
-    yield {"kind": "fit", "family": "GeneralizedGammaDistribution", "fixed": [1], "farg": [2.0, 1.3, 1.0],
-           "theta": [2.0, 1.3, 0.8], "data": "own", "n": 300, "data_seed": 2}
-    yield {"kind": "fit", "family": "VonMisesDistribution", "fixed": [0], "farg": [3.0, 0.0],
-           "theta": [3.0, 0.4], "data": "own", "n": 300, "data_seed": 3}
-    yield {"kind": "fit", "family": "LogNormalDistribution", "fixed": [0], "farg": [1e-5, 1.0],
-           "theta": [1e-5, 0.4], "data": "own", "n": 300, "data_seed": 4}
-    yield {"kind": "fit", "family": "LogNormalDistribution", "fixed": [0], "farg": [-2e-7, 1.0],
-           "theta": [0.0, 0.7], "data": "weibull", "n": 300, "data_seed": 5}
+    """witnesses of DESIGN section 4 #2, #3, #4 and of the two defects found here (corpus/C11, run first)"""
+    import glob
+    import json
+    import os
+
+    for fn in sorted(glob.glob(os.path.join(core.VERIF, "corpus", "C11", "*.json"))):
+        for c in json.load(open(fn)):
+            c.pop("note", None)
+            yield c
 
 
 def _fit_worker(case):
@@ -482,7 +480,12 @@ def main(ck):
         bad = c05.lean_bad_rows("C11")
         ck.extra["table_rows_rejected_by_lean"] = {k: [list(map(str, b)) for b in v][:30] for k, v in bad.items()}
     # corpus
-    run_fits(ck, list(corpus_cases()), 1)
+    corpus = list(corpus_cases())
+    run_fits(ck, [c for c in corpus if c["kind"] == "fit"], 1)
+    for case in [c for c in corpus if c["kind"] == "ctor"]:
+        ck.case(case, nontrivial=True, sample=False)
+        for sig, detail in check_ctor(case):
+            ck.fail(sig, case, detail)
     # (1) tables, concretely
     run_ctor_rows(ck, rng, 3 if thorough else 1)
     c05.run_rows(ck, TABLES["get"], rng, 2 if thorough else 1, only_fixed=True)
